@@ -42,6 +42,8 @@ def menu():
     m["c_nodef"] = {"Type": "Choice", "Choices": [{"Variable": "$.a", "NumericEquals": 1, "Next": "@next"}]}
     m["c_order"] = {"Type": "Choice", "Choices": [{"Variable": "$.a", "NumericGreaterThanEquals": 0, "Next": "@D"},
                                                   {"Variable": "$.a", "NumericEquals": 1, "Next": "@next"}], "Default": "@next"}
+    # operands of the *Path comparators are read from the effective input (after InputPath), like the Variable
+    m["c_pathin"] = {"Type": "Choice", "InputPath": "$.a", "Choices": [{"Variable": "$.b[0]", "NumericLessThanPath": "$.b[1]", "Next": "@next"}], "Default": "@D"}
     m["w1"] = {"Type": "Wait", "Seconds": 1}
     m["w_path"] = {"Type": "Wait", "SecondsPath": "$.a", "OutputPath": "$"}
     m["succeed"] = {"Type": "Succeed"}
@@ -238,7 +240,7 @@ def judge(names, ii, o, g, rec):
             if agree(g, alt):
                 return ("null-input-read-as-empty-object", "(together with the in-band Error convention) engine %r; reference %r" % (g[:3], want.key()))
         except RA.Unjudged:
-            pass
+            return "unjudged"      # the defect model itself cannot predict this case: nothing to compare with
     return ("mismatch", "engine %r; reference %r" % (g[:3], want.key()))
 
 def run(tier, seed):
